@@ -29,7 +29,7 @@ MANIFEST = {
     'technique': 'explicit-state BFS over operation histories (register / overwrite / rejected register / remove method / serve a request) on '
                  'the real Ombott application; every reached method-table state probed with all request methods x paths '
                  'against a reference dispatch model',
-    'text': 'All histories up to depth 3 (quick) / 5 (thorough) over a menu of 42 operations (registrations, removals, served requests) on two rules are replayed on '
+    'text': 'All histories up to depth 3 (quick) / 5 (thorough) over a menu of 46 operations (registrations, removals, served requests) on two rules are replayed on '
             'fresh applications; each distinct method-table state is probed with 8 request methods x 5 paths and compared '
             'with the reference (handler, status, exact Allow); rejected registrations must not change the state. The search is repeated on an application with a scoped 404 handler, and every 405 is also requested as JSON.',
     'note': 'Bounds: 2 editable rules + 1 static, handler identities A/B, depth as stated. Trusted: the reference model here.',
@@ -54,6 +54,8 @@ def menu():
         # several verbs removed by one call (some of them possibly not registered)
         m.append(('rml', r, ('HEAD', 'GET', 'POST')))
         m.append(('rml', r, ('PUT', 'ANY')))
+    # the same rule written in another spelling (bottle style / colon style): it is the same route
+    m += [('route', '/x/<p>', 'GET', True), ('route', '/x/:p', 'POST', True), ('route', '/x/<p>', 'HEAD', False), ('rm', '/x/:p', 'GET')]
     # serving a request is an operation too: it must not change how later requests are dispatched
     for meth, path in (('GET', '/x'), ('HEAD', '/x'), ('POST', '/x'), ('PUT', '/x'), ('HEAD', '/x/1'), ('POST', '/x/1')):
         m.append(('req', path, meth))
@@ -130,13 +132,17 @@ def hid_of(op):
     return ('B' if op[3] else 'A') + ':' + ('+'.join(upper_list(op[2])))
 
 
+def canon_rule(rule):
+    return rule.replace('<p>', '{p}').replace(':p', '{p}')
+
+
 class Model:
     def __init__(self):
         self.t = {'/y': {'GET': 'Y'}}
 
     def apply(self, op):
         """-> True when the operation must be accepted (no exception)"""
-        kind, rule = op[0], op[1]
+        kind, rule = op[0], canon_rule(op[1])
         if kind == 'req':
             return True
         if kind == 'route':
